@@ -3033,6 +3033,9 @@ impl<'a> Model<'a> {
             }
         }
 
+        #[cfg(ironcalc_verif)]
+        crate::verif::phase1::record(n, restart_count, retry);
+
         // Phase 2: evaluate everything else; spill cells are already Evaluated and skipped.
         // Fallback when max restarts is exceeded (circular spill dependency).
         let all_cells = self.get_all_cells();
